@@ -222,10 +222,28 @@ theorem prereq_not_stripped (st : HState) (w : Bytes) (strip : Int) (hw : plainW
     headerStep st (str "Prereq: " ++ w) strip =
       .ok ({ st with lines := st.lines + 1, thisLooks := .unknown, patch := { st.patch with prerequisite := w } }, true) := by
   rw [Header.headerStep_prereq]
-  by_cases hne : w = []
-  · subst hne; rfl
-  · rw [Names.file_line_word w 0 hne hw.2.2 hw.1 hw.2.1, Names.stripPath_zero]
-    simp [Except.map]
+  have e : w.takeWhile (fun c => c != SP && c != TAB) = w := by
+    have : ∀ (v : Bytes), TAB ∉ v → SP ∉ v → v.takeWhile (fun c => c != SP && c != TAB) = v := by
+      intro v
+      induction v with
+      | nil => intros; rfl
+      | cons c v ih =>
+        intro ht hs
+        have h1 : c ≠ SP := fun e => hs (by simp [e])
+        have h2 : c ≠ TAB := fun e => ht (by simp [e])
+        rw [List.takeWhile_cons, ih (fun h => ht (List.mem_cons_of_mem _ h)) (fun h => hs (List.mem_cons_of_mem _ h))]
+        simp [h1, h2]
+    exact this w hw.1 hw.2.1
+  rw [e]
+
+/-- NEW (D90): **the prerequisite is not unquoted either**: whatever stands after `Prereq: ` (`r`: any bytes, a `"` or a `\`
+    included), the word stored is `r` up to its first blank or TAB, byte for byte.  Before the change a word that began with
+    `"` was read as a C-quoted name (and a malformed one made the header scan throw). -/
+theorem prereq_word (st : HState) (r : Bytes) (strip : Int) :
+    headerStep st (str "Prereq: " ++ r) strip =
+      .ok ({ st with lines := st.lines + 1, thisLooks := .unknown,
+                     patch := { st.patch with prerequisite := r.takeWhile fun c => c != SP && c != TAB } }, true) :=
+  Header.headerStep_prereq st r strip
 
 /-- … while the name on an `Index: ` line is stripped, as before -/
 theorem index_is_stripped (st : HState) (w : Bytes) (strip : Int) (hw : plainWord w) (hne : w ≠ []) :
@@ -347,6 +365,7 @@ end PatchModel.C11
 #print axioms PatchModel.C11.first_hunk_line_like_header
 #print axioms PatchModel.C11.git_first_line_consumed
 #print axioms PatchModel.C11.prereq_not_stripped
+#print axioms PatchModel.C11.prereq_word
 #print axioms PatchModel.C11.index_is_stripped
 #print axioms PatchModel.C11.git_range_alone_infers_nothing
 #print axioms PatchModel.C11.git_header_roundtrip
